@@ -615,7 +615,7 @@ def load_findings(chk):
     # TEMPORARY: entries of build/kf-C19.json that known_findings.json does not list yet (new in the audit round);
     # the lead drops this after merging
     p = os.path.join(vlib.VERIF, "build", "kf-C19.json")
-    if os.path.exists(p):
+    if os.path.exists(p) and os.environ.get("VERIF_KF_DEV"):  # development only: proposals not yet merged into known_findings.json
         have = {f.get("id") for f in chk.findings}
         chk.findings = chk.findings + [f for f in json.load(open(p)) if f.get("id") not in have]
 
